@@ -7,6 +7,7 @@ package main
 import (
 	"fmt"
 	"strings"
+	"time"
 
 	"github.com/graphql-go/graphql"
 	"github.com/graphql-go/graphql/language/ast"
@@ -190,6 +191,38 @@ func c19Families() []c19Family {
 			sb.WriteString(") }")
 			return sb.String()
 		}, one},
+		{"chain-merged-keys", func(n int) string {
+			// every response key merges two selection sets along a reuse chain
+			var sb strings.Builder
+			sb.WriteString("{ ...F1 }")
+			for i := 1; i < n; i++ {
+				sb.WriteString(fmt.Sprintf(" fragment F%d on Q { a: x { ...F%d } a: x { ...F%d } b: x { ...F%d } b: x { ...F%d } }", i, i+1, i+1, i+1, i+1))
+			}
+			sb.WriteString(fmt.Sprintf(" fragment F%d on Q { c }", n))
+			return sb.String()
+		}, one},
+		{"chain-multi-spread", func(n int) string {
+			// each link spreads the next fragment at three sites
+			var sb strings.Builder
+			sb.WriteString("{ ...F1 }")
+			for i := 1; i < n; i++ {
+				sb.WriteString(fmt.Sprintf(" fragment F%d on Q { ...F%d ...F%d o { ...F%d } }", i, i+1, i+1, i+1))
+			}
+			sb.WriteString(fmt.Sprintf(" fragment F%d on Q { a }", n))
+			return sb.String()
+		}, one},
+		{"exclusive-lattice", func(n int) string {
+			// one response key under two object types of an abstract field; the sub-selections
+			// spread fragments that spread one another along 2^n paths
+			var sb strings.Builder
+			sb.WriteString("{ if0 { ... on O0 { k: if0 { ...A1 } } ... on O1 { k: if0 { ...B1 } } } }")
+			for i := 1; i < n; i++ {
+				sb.WriteString(fmt.Sprintf(" fragment A%d on I0 { a ...A%d ...B%d }", i, i+1, i+1))
+				sb.WriteString(fmt.Sprintf(" fragment B%d on I0 { a ...A%d ...B%d }", i, i+1, i+1))
+			}
+			sb.WriteString(fmt.Sprintf(" fragment A%d on I0 { a } fragment B%d on I0 { a }", n, n))
+			return sb.String()
+		}, one},
 		{"inline-nesting", func(n int) string {
 			var sb strings.Builder
 			sb.WriteString("{")
@@ -228,6 +261,19 @@ func c19Term(text string) (string, *ast.Document, bool) {
 
 const c19Cap = 40000
 
+// c19Watch runs f with a watchdog: an exponential blow-up is reported as the failing input
+// instead of hanging the check (the goroutine is abandoned).
+func c19Watch(f func()) (panicked string, timedOut bool) {
+	done := make(chan string, 1)
+	go func() { done <- guard(f) }()
+	select {
+	case p := <-done:
+		return p, false
+	case <-time.After(20 * time.Second):
+		return "", true
+	}
+}
+
 func genC19(tier string, seed uint64, n int, e *Emitter) {
 	sizes := []int{2, 4, 8, 16, 32}
 	if tier == "thorough" {
@@ -239,6 +285,7 @@ func genC19(tier string, seed uint64, n int, e *Emitter) {
 		return
 	}
 	overlap := []graphql.ValidationRuleFn{rules[13]}
+	cycles := []graphql.ValidationRuleFn{rules[9]}
 	one := 1
 	for _, fam := range c19Families() {
 		valPts, planPts := []string{}, []string{}
@@ -260,10 +307,35 @@ func genC19(tier string, seed uint64, n int, e *Emitter) {
 			}
 			tags := []string{"family-" + fam.name, fmt.Sprintf("n-%d", sz)}
 			// validation: overlap rule alone
+			// the fragment-cycle search alone
+			graphql.VerifResetCounters()
+			var resc graphql.ValidationResult
+			failc, toc := c19Watch(func() { resc = graphql.ValidateDocument(&sc.built.Schema, doc, cycles) })
+			cc := c19Counters()
+			if toc {
+				e.Emit(Case{Group: "cycle-search", Desc: map[string]interface{}{"family": fam.name, "n": sz, "document": c19Clip(text), "counters": cc},
+					Tags: tags, Fail: "watchdog: NoFragmentCycles did not finish within 20 s on a document of " + fmt.Sprint(len(text)) + " bytes"})
+				return // the abandoned run keeps incrementing the global counters: nothing measured after it is reliable
+			}
+			if failc == "" && !resc.IsValid {
+				failc = "family member rejected by NoFragmentCycles"
+			}
+			e.Emit(Case{Group: "cycle-search", Coq: fmt.Sprintf("(CycleCase %s %s)", term, c02NList(cc)),
+				Desc: map[string]interface{}{"family": fam.name, "n": sz, "document": c19Clip(text), "counters": cc}, NT: sz >= 8, Tags: tags, Fail: failc})
 			graphql.VerifResetCounters()
 			var res graphql.ValidationResult
-			fail := guard(func() { res = graphql.ValidateDocument(&sc.built.Schema, doc, overlap) })
+			fail, tov := c19Watch(func() { res = graphql.ValidateDocument(&sc.built.Schema, doc, overlap) })
 			cv := c19Counters()
+			if tov {
+				e.Emit(Case{Group: "validate", Desc: map[string]interface{}{"family": fam.name, "n": sz, "document": c19Clip(text), "counters": cv},
+					Tags: tags, Fail: "watchdog: the overlap rule did not finish within 20 s on a document of " + fmt.Sprint(len(text)) + " bytes"})
+				return
+			}
+			for i := range cv {
+				if i == 7 {
+					cv[i] = cc[i]
+				}
+			}
 			if fail == "" && !res.IsValid {
 				fail = "family member rejected by the overlap rule: " + fmt.Sprint(res.Errors)
 			}
@@ -279,8 +351,14 @@ func genC19(tier string, seed uint64, n int, e *Emitter) {
 			// planning
 			graphql.VerifResetCounters()
 			var perr error
-			fail = guard(func() { _, perr = graphql.PlanQuery(&sc.built.Schema, doc, "") })
+			var top bool
+			fail, top = c19Watch(func() { _, perr = graphql.PlanQuery(&sc.built.Schema, doc, "") })
 			cp := c19Counters()
+			if top {
+				e.Emit(Case{Group: "plan", Desc: map[string]interface{}{"family": fam.name, "n": sz, "document": c19Clip(text), "counters": cp},
+					Tags: tags, Fail: "watchdog: PlanQuery did not finish within 20 s on a document of " + fmt.Sprint(len(text)) + " bytes"})
+				return
+			}
 			if fail == "" && perr != nil {
 				fail = "PlanQuery: " + perr.Error()
 			}
